@@ -1,7 +1,7 @@
 """Kani part of C13: the reject writer (write_rej_to) and the reject file name."""
 import itertools
 from ..kani import Instance
-from . import FROM_UTF8_STUB
+from . import FROM_UTF8_STUB, writer_loops
 
 
 def spec_part(tier, seed):
@@ -10,7 +10,7 @@ def spec_part(tier, seed):
     for v in vecs:
         nm = "c13w_" + "".join("a" if x else "f" for x in v)
         arr = ", ".join(str(x).lower() for x in v)
-        inst.append(Instance(nm, "rej", "rej_case::<%d>([%s])" % (len(v), arr), unwind=110, unwindset={"memcmp.0": 30}, stubs=[FROM_UTF8_STUB],
+        inst.append(Instance(nm, "rej", "rej_case::<%d>([%s])" % (len(v), arr), unwind=34, unwindset={"memcmp.0": 30}, unwind_fns=writer_loops(1, 400), stubs=[FROM_UTF8_STUB],
                              mem_gb=12, timeout_s=2400, sub="C13 reject writer: exactly the failed hunks", params=dict(report=["applied" if x else "failed" for x in v])))
     return {"instances": inst,
             "functions": ["FilePatch::write_rej_to", "write_file_patch_header_to", "TextHunk::write_to", "parse_hunks (read back)"],
